@@ -1,9 +1,10 @@
 #!/bin/bash
 # seed_detect.sh <patch> <property> [more properties...]: apply a seeded change to /repo, run the quick checks, undo it.
 patch=$1; shift
-cd /repo && git checkout -q -- . && git apply "$patch" || { echo "APPLY-FAILED $patch"; exit 2; }
+cd /repo && git checkout -q -- . && { git apply "$patch" 2>/dev/null || git apply --3way "$patch" 2>/dev/null; } || { echo "APPLY-FAILED $patch"; exit 2; }
+git -C /repo reset -q
 for p in "$@"; do
   out=$(cd /verif && timeout 1500 python3 bin/check --property $p --tier quick 2>&1); rc=$?
   echo "RESULT patch=$patch property=$p rc=$rc $(echo "$out" | grep -m1 -A1 '^VIOLATION' | tr '\n' ' ' | cut -c1-300) $(echo "$out" | grep -m1 TOOL-ERROR | cut -c1-200)"
 done
-cd /repo && git checkout -q -- .
+cd /repo && git reset -q && git checkout -q -- .
